@@ -140,6 +140,8 @@ class SocketSpawn(SpawnBase):
                 if s == b'':
                     self.flag_eof = True
                     raise EOF("Socket closed")
+                s = self._decoder.decode(s, final=False)
+                self._log(s, 'read')
                 return s
         except (socket.timeout, BlockingIOError):
             # timeout=0 puts the socket in non-blocking mode, where "nothing
